@@ -81,7 +81,7 @@ fn lookup(prefix: Option<&str>, chain: &[&TagInfo]) -> Res {
 
 pub fn check(doc: &XmlDoc, st: &mut Stats) -> Result<(), String> {
     st.eval();
-    let (dom, _) = drive_xml(ModelDom::new(), &XmlCfg::default(), &[doc.text.clone()], |_| {});
+    let (dom, _) = drive_xml(ModelDom::new(), &XmlCfg::default(), &[doc.text.clone()], |_, _| {});
     if let Some(v) = dom.violations.borrow().first() {
         return Err(format!("sink contract violated while parsing: {v}"));
     }
@@ -369,7 +369,7 @@ pub fn run(ctx: &Ctx) -> Report {
     });
     rep.absorb(out);
     rep.extra.insert("enumerated_family".into(), json!({"documents": fam.len()}));
-    let out = run_random(ctx.seed, ctx.tier.pick(1_000_000, 30_000_000), 1500, decode, check);
+    let out = run_random(ctx.seed, ctx.tier.pick(4_000_000, 40_000_000), 1500, decode, check);
     rep.absorb(out);
     rep.need("binding shadowed or un-declared on a nested element", 500);
     rep.need("element follows a sibling that declared the binding it uses", 500);
